@@ -3,7 +3,7 @@ from framework import Query
 LEVEL = 'model_checking'
 MANIFEST = {
     'level_text': 'Bounded model checking of the real static_list template and of the self-registering objects: every history of K '
-                  'operations over a 4-node pool (K=5 quick, 8 thorough) plus one inductive step from an arbitrary well-formed list, '
+                  'operations over a 4-node pool (K=5 quick, 10 thorough) plus one inductive step from an arbitrary well-formed list, '
                   'which extends the claim to histories of any length over that pool; CBMC pointer/bounds checks on.',
     'level_note': 'Trusted: clang-14 lowering, ll2c, CBMC/SAT, the array model. Assumes the documented preconditions (push only '
                   'unlinked nodes, remove only members). Pool size 4; instantiations: class_info, harness Node, class_declaration_aux, '
@@ -17,8 +17,8 @@ ASSUMPTIONS = [
 
 
 def queries(tier):
-    k = 5 if tier == 'quick' else 8
-    k3 = 4 if tier == 'quick' else 6
+    k = 5 if tier == 'quick' else 10
+    k3 = 4 if tier == 'quick' else 7
     qs = [
         Query('hist_class_info_k%d' % k, 'c18_list.cpp', {'MODE': 1, 'VK': k}, unwind=k + 2, checks='memory', timeout=3000,
               desc='static_list<class_info>: every history of %d push/remove/clear operations over 4 nodes vs array model' % k,
